@@ -19,6 +19,14 @@ def acceptsShape (req : List Nat) : Arg → Bool
   | .ndarray s => s == req
   | _ => false
 
+/-- a constructor that takes several fixed-shape arguments at once (volume, rotation, translation; the
+    seven Seelab camera parameters): every argument is checked against its own required shape, on its
+    own — the arguments are never compared with one another -/
+def acceptsAll : List (List Nat) → List Arg → Bool
+  | [], [] => true
+  | r :: rs, a :: as => acceptsShape r a && acceptsAll rs as
+  | _, _ => false
+
 /-- one half (origin / size) of a CameraViewPort: a 2-element array, list or tuple -/
 def acceptsVec2 : Arg → Bool
   | .ndarray s => s == [2]
